@@ -792,6 +792,15 @@ theorem ss_width_exact {w N : Nat} (hN : N < 2 ^ w) (junk arg : List Byte) :
     ((0 : Byte) ∈ arg → arg.length ≤ 2 ^ w → sCtorPtrW w N junk arg = sCtorPtr N junk arg) :=
   ⟨fun s c hs => sPushW_eq hN s c hs, fun sz => sCtorPtrLenW_eq hN junk arg sz, fun h0 hl => sCtorPtrW_eq hN h0 hl⟩
 
+/-- EVERY history of string operations whose C-string arguments fit the counter:
+    the `w`-bit string machine is the machine of `ss_history_refines` -/
+theorem ss_width_history_transfers {w : Nat} (c : SCfg) (hj : c.junk.length = c.N + 1) (hN : c.N < 2 ^ w)
+    (ops : List SOp) (hwf : ∀ op, op ∈ ops → op.wf ∧ op.fitsW w) :
+    srunW w c ops (fun _ => none) = srun c ops (fun _ => none) :=
+  srunW_eq hj hN ops (fun _ => none) (fun _ => none) (fun _ => trivial) hwf
+
+example : (SOp.ptr 0 [0x61, 0]).wf ∧ (SOp.ptr 0 [0x61, 0]).fitsW 64 := by simp [SOp.wf, SOp.fitsW]
+
 /-- `static_string<3>("abcde")` with a 2-bit counter: strlen 5 is stored as 1, which
     is not `> 3`: one character is kept instead of three -/
 theorem ss_width_witness :
